@@ -556,6 +556,18 @@ func (e *Engine) conv(dst, src types.Type, x Value) Value {
 					}
 					return f
 				}
+				if constLeaves(t, 6) > 0 {
+					// an ite-tree of constants converts leaf by leaf (exact, cheap)
+					return tt.MapConstIte(t, func(k *Term) *Term {
+						var f float64
+						if e.IntMode || !ss {
+							f, _ = new(big.Float).SetInt(k.c).Float64()
+						} else {
+							f, _ = new(big.Float).SetInt(toSigned(k.sort.W, k.c)).Float64()
+						}
+						return e.fpTerm(f)
+					})
+				}
 				if e.IntMode {
 					return tt.Raw(OFpOfInt, FPSort, 0, t)
 				}
